@@ -28,6 +28,7 @@ ASSUMPTIONS = [
     "vf/ref/bencode.py locates the raw info span; vf/ref/metafile.py builds the foreign metafiles (canonical bencoding)",
     "names and URLs are valid UTF-8; when both announce and announce-list exist, announce is the first URL of the list (BEP 12 precedence is then unambiguous)",
 ]
+FUZZ_RUNS = 40000   # thorough tier: libFuzzer runs per campaign of the coverage-guided stage (vf/fuzz.py)
 BUDGET = {
     "quick": {"examples": 600, "workers": 8, "time_cap": 70},
     "thorough": {"examples": 25000, "workers": 14, "time_cap": 900},
